@@ -199,6 +199,18 @@ pub fn install_panic_hook() {
     }));
 }
 
+/// "panic@<file>#<line>" from a recorded panic message "... @ <file>:<line>"
+pub fn panic_class(msg: &str) -> String {
+    match msg.rsplit_once(" @ ") {
+        Some((_, loc)) => {
+            let loc = loc.trim();
+            let short = loc.rsplit('/').take(2).collect::<Vec<_>>().into_iter().rev().collect::<Vec<_>>().join("/");
+            format!("panic@{}", short.replace(':', "#"))
+        }
+        None => "panic@unknown".to_string(),
+    }
+}
+
 pub fn take_panic() -> String {
     LAST_PANIC.with(|p| p.borrow_mut().take()).unwrap_or_else(|| "<unknown>".to_string())
 }
@@ -212,7 +224,7 @@ pub fn guard<T>(ctx: &mut Ctx, site: &str, f: impl FnOnce() -> T) -> Option<T> {
             let msg = take_panic();
             ctx.probe("panics_caught");
             // the panic location is library code iff it is under /repo/src or a dependency
-            ctx.fail(&format!("panic:{site}"), format!("library call `{site}` panicked: {msg}"));
+            ctx.fail(&format!("{}:{site}", panic_class(&msg)), format!("library call `{site}` panicked: {msg}"));
             None
         }
     }
@@ -226,7 +238,7 @@ pub fn guard_hint<T>(ctx: &mut Ctx, site: &str, hint: serde_json::Value, f: impl
             let msg = take_panic();
             ctx.probe("panics_caught");
             ctx.fail_hint(
-                &format!("panic:{site}"),
+                &format!("{}:{site}", panic_class(&msg)),
                 format!("library call `{site}` panicked: {msg}"),
                 hint,
             );
